@@ -60,6 +60,9 @@ def _run_job(job):
             break
     else:
         raise KeyError(hname)
+    kw = dict(kw)
+    raw = kw.pop("raw", False)
+    alg.RAW[0] = bool(raw)
     ex = Explorer(**kw)
     try:
         ex.run(lambda ctx: fn(ctx, **case), lambda e: SymCtx(e, lw))
@@ -356,6 +359,8 @@ def run_check(prop, tier, repo, jobs, seed):
         "discharged": int(discharged),
         "discharged_normal_form_zero": int(agg.get("discharged_syntactic", 0)),
         "discharged_by_z3_unsat": int(agg.get("discharged_solver", 0)),
+        "raw_crosscheck": {"normal_form_identities_confirmed_by_z3_on_the_unnormalised_expression": int(agg.get("raw_confirmed", 0)),
+                           "solver_unknown": int(agg.get("raw_unknown", 0)), "disagreements": int(agg.get("raw_disagree", 0))},
         "refuted_by_z3_model": int(agg.get("refuted", 0)),
         "refuted_reproduced_keys": sorted(reproduced),
         "refuted_spurious": spurious,
